@@ -104,6 +104,7 @@ DEFAULT_CFG = dict(
     heap=False,        # harness owns yyalloc/yyrealloc/yyfree (allocation ledger, fault injection)
     tablesfile=False,  # --tables-file: tables are loaded with yytables_fload() at run time
     tablesverify=False,
+    useread=False,     # %option read: the scanner's own input routine uses read(2) (needs userread False)
     instances=False,   # C12 harness: several reentrant instances in one process
     extra_opts="",     # further %option text
 )
@@ -143,6 +144,8 @@ def emit_l(src, cfg):
         hdr.append("%option tables-verify")
     if c["extra_opts"]:
         hdr.append("%option " + c["extra_opts"])
+    if c.get("useread"):
+        hdr.append("%option read")
     names = sc_names(src)
     for i, s in enumerate(src["scs"]):
         if i == 0: continue
@@ -158,7 +161,7 @@ def emit_l(src, cfg):
     out.append("%{")
     out.append("#define VF_NRULES %d" % len(src["rules"]))
     out.append("#define VF_NSC %d" % len(src["scs"]))
-    for f in ("reject", "yymore", "stack", "yylineno", "array", "userread", "userwrap", "heap"):
+    for f in ("reject", "yymore", "stack", "yylineno", "array", "userread", "userwrap", "heap", "useread"):
         if c[f] and c[f] != "no": out.append("#define VF_%s 1" % f.upper())
     out.append("#define VF_FLAVOUR_%s 1" % c["flavour"].upper())
     if c.get("yylmax"): out.append("#define YYLMAX %d" % c["yylmax"])
